@@ -61,7 +61,7 @@ def strategy(draw):
         chroms.append({"name": CHROMS[ci], "blocks": blocks})
     nbins = sum(len(b.get("pat", b.get("names", []))) for c in chroms for b in c["blocks"])
     seg_cuts = sorted(set(draw(st.lists(st.integers(1, max(1, nbins - 1)), max_size=6))))
-    return {"chroms": chroms, "seed": draw(st.integers(0, 2 ** 31)), "index": draw(st.sampled_from([[0, 1], [0, 1], [7, 1], [3, 2]])),
+    return {"chroms": chroms, "seed": draw(st.integers(0, 2 ** 31)), "index": draw(st.sampled_from([[0, 1], [0, 1], [7, 1], [3, 2], [0, 2, "range"], [1, 3, "range"], [5, 1, "range"]])),
             "threshold": draw(st.sampled_from([0.0, 0.1, 0.2, 0.5])), "min_probes": draw(st.integers(0, 4)),
             "skip_low": draw(st.booleans()), "male_ref": draw(st.booleans()), "female": draw(st.booleans()),
             "null_frac": draw(st.sampled_from([0.0, 0.0, 0.15])), "cuts": seg_cuts,
@@ -118,8 +118,14 @@ def make_cnarr(rows, case):
     from cnvlib.cnary import CopyNumArray
 
     df = pd.DataFrame(rows, columns=["chromosome", "start", "end", "gene", "log2", "depth", "weight", "rid"])
-    off, step = case["index"]
-    df.index = np.arange(len(df)) * step + off
+    off, step = case["index"][:2]
+    if len(case["index"]) > 2 and case["index"][2] == "range":
+        # what slicing a default-indexed table (cnarr[::k], cnarr[k:]) leaves behind: a (strided) RangeIndex
+        import pandas as pd
+
+        df.index = pd.RangeIndex(off, off + step * len(df), step)
+    else:
+        df.index = np.arange(len(df)) * step + off
     return CopyNumArray(df, {"sample_id": "s"})
 
 
@@ -171,7 +177,7 @@ def group_model(names, ids):
 
 
 def nontrivial(case):
-    if case["index"] != [0, 1]:
+    if case["index"][:2] != [0, 1]:
         return True
     for c in case["chroms"]:
         genes = sum(1 for b in c["blocks"] if b["t"] == "gene")
@@ -182,7 +188,7 @@ def nontrivial(case):
 
 
 def classify(case):
-    labs = ["index:" + ("default" if case["index"] == [0, 1] else "nondefault"), "nchrom:%d" % len(case["chroms"])]
+    labs = ["index:" + ("default" if case["index"] == [0, 1] else "strided-RangeIndex" if len(case["index"]) > 2 else "nondefault"), "nchrom:%d" % len(case["chroms"])]
     labs.append("segments" if case["use_segments"] else "nosegments")
     for c in case["chroms"]:
         bl = c["blocks"]
